@@ -54,3 +54,19 @@ def decode_blob(payload):
     if not sep or b'@' not in comment:
         why.append('comment %r' % comment[:30])
     return dict(ok=not why, n=n, e=e, comment=comment, why=', '.join(why))
+
+
+def private_numbers_of_pem(path):
+    from cryptography.hazmat.primitives import serialization
+    with open(path, 'rb') as f:
+        key = serialization.load_pem_private_key(f.read(), password=None)
+    pn = key.private_numbers()
+    return pn.public_numbers.n, pn.public_numbers.e, pn.d
+
+
+def reference_signature(token, n, d):
+    """EMSA-PKCS1-v1_5(SHA-1 DigestInfo || token) ^ d mod n, as k bytes (reference for boundary searches)."""
+    k = (n.bit_length() + 7) // 8
+    t = SHA1_DIGESTINFO + bytes(token)
+    em = b'\x00\x01' + b'\xff' * (k - 3 - len(t)) + b'\x00' + t
+    return pow(int.from_bytes(em, 'big'), d, n).to_bytes(k, 'big')
